@@ -23,7 +23,7 @@ from . import c01_cov
 import cherrypy
 
 PROPERTY = 'C01'
-LEAN_TARGETS = ['CpProofs.C01', 'CpProofs.C01Boundary', 'CpProofs.C01Redirect', 'drv_c01']
+LEAN_TARGETS = ['CpProofs.C01', 'CpProofs.C01Boundary', 'CpProofs.C01Redirect', 'CpProofs.C01Lazy', 'drv_c01']
 DRIVER = 'drv_c01'
 THEOREMS = [
     'CpProofs.C01.fuel_sufficient',
@@ -64,6 +64,12 @@ THEOREMS = [
     'CpProofs.C01Boundary.C01B_chunks_bytes_iff_checked',
     'CpProofs.C01Boundary.C01B_chunks_bytes_partial',
     'CpProofs.C01Boundary.C01B_read_fuel_irrelevant',
+    # lazy assembly of the WSGI pipeline under concurrent first requests (lean/CpModel/PipelineLazy.lean)
+    'CpProofs.C01Lazy.step_inv',
+    'CpProofs.C01Lazy.C01_lazy_pipeline_complete',
+    'CpProofs.C01Lazy.C01_lazy_head_complete',
+    'CpProofs.C01Lazy.C01_lazy_overlapped_request_served',
+    'CpProofs.C01Lazy.C01_lazy_inplace_false',
     # InternalRedirector with query strings (lean/CpModel/RedirQ.lean)
     'CpProofs.C01Redirect.redirector_terminates',
     'CpProofs.C01Redirect.redirector_fuel_irrelevant',
@@ -1134,6 +1140,19 @@ def check_races(ctx):
             return
         for what, sig in c01_race.oracle(case, obs):
             ctx.oracle_fail(case, what, sig)
+        if obs.get('tie') and not obs.get('hung'):
+            # tie of the lazy-assembly model (PipelineLazy.lean, theorems CpProofs.C01Lazy.*) to this run
+            out = ctx.model([c01_race.model_line(obs)])
+            if out is not None:
+                ctx.compared()
+                real = c01_race.canon_real(obs)
+                want = out[0]
+                if real.startswith('head=? '):
+                    want = 'head=? ' + want.split(' ', 1)[1] if ' ' in want else want
+                if want != real:
+                    ctx.disagree(case, real, want, 'lazy assembly of the WSGI pipeline: layers of the memoized chain / '
+                                 'layers each of the two overlapping requests went through / threads that assembled a '
+                                 'chain differ')
 
 
 def replay(ctx, case):
